@@ -22,14 +22,16 @@ const O_PROBE: u8 = 2;
 const O_DRAIN: u8 = 3;
 const O_INTO_SOURCE: u8 = 4;
 const O_CLONE_SWAP: u8 = 5;
+const O_EXTEND_SOURCE: u8 = 6; // a = frames appended to the (exactly exhausted) source
 
-static OPS: [OpSpec; 6] = [
+static OPS: [OpSpec; 7] = [
     OpSpec { name: "next", shrink: 0 },
     OpSpec { name: "set_ratio", shrink: 2 },
     OpSpec { name: "is_exhausted", shrink: 0 },
     OpSpec { name: "drain_until_exhausted", shrink: 0 },
     OpSpec { name: "into_source", shrink: 0 },
     OpSpec { name: "replace_converter_by_its_clone", shrink: 0 },
+    OpSpec { name: "source_receives_more_frames_through_source_mut", shrink: 1 },
 ];
 
 const F_RATIO_CHANGE: usize = 0;
@@ -41,6 +43,7 @@ const F_OVERRUN: usize = 5;
 const F_CONTROL_EOF: usize = 6;
 const F_RATIO_CHANGE_BEFORE_FIRST: usize = 7;
 const F_CLONE_SWAP: usize = 8;
+const F_SOURCE_REFILLED: usize = 9;
 
 const P_EXACT_INTEGER_POSITION: usize = 0;
 const P_AMBIGUOUS_BOUNDARY: usize = 1;
@@ -233,6 +236,20 @@ where
             Sut::LinearClone(c) => Some((c.source().is_exhausted(), c.source_mut().is_exhausted())),
             _ => None,
         }
+    }
+    /// the owner appends `k` frames to the finite source through `source_mut()`
+    fn extend_source(&mut self, k: u64) -> bool {
+        fn go<F: dasp_frame::Frame>(p: &mut ProbeSignal<F>, k: u64) {
+            p.end = p.end.map(|e| e + k);
+        }
+        match self {
+            Sut::FloorDirect(c) => go(c.source_mut(), k),
+            Sut::LinearDirect(c) => go(c.source_mut(), k),
+            Sut::FloorClone(c) => go(c.source_mut(), k),
+            Sut::LinearClone(c) => go(c.source_mut(), k),
+            _ => return false,
+        }
+        true
     }
     /// replace the converter by its clone (true if this variant can)
     fn clone_swap(&mut self) -> bool {
@@ -437,7 +454,7 @@ where
         4 => r.range(200, 5000),
         _ => r.range(0, 60),
     });
-    let len = if len < 0 { None } else { Some(len as u64) };
+    let mut len = if len < 0 { None } else { Some(len as u64) };
     let long = src.cfg("long_run", 0, 1, |r| r.chance(1, 60) as i64) == 1;
     let steps = src.cfg("steps", 0, 4000, |r| if long { r.range(1000, 4000) } else { r.range(1, 120) }) as usize;
     if long {
@@ -525,8 +542,9 @@ where
             if drain_first && done == 0 {
                 return Some(Op::k(O_DRAIN));
             }
-            let w = [40u32, if mul_hz { 0 } else { 8 }, 4, if len.is_some() && !mul_hz { 2 } else { 0 }, if mul_hz { 0 } else { 1 }, if cloneable { 5 } else { 0 }];
+            let w = [40u32, if mul_hz { 0 } else { 8 }, 4, if len.is_some() && !mul_hz { 2 } else { 0 }, if mul_hz { 0 } else { 1 }, if cloneable { 5 } else { 0 }, if len.is_some() && !mul_hz { 3 } else { 0 }];
             Some(match r.weighted(&w) as u8 {
+                O_EXTEND_SOURCE => Op::ka(O_EXTEND_SOURCE, r.range(1, 12)),
                 O_SET => {
                     let v = if dyadic { dyadic_ratio(r) } else { free_ratio(r) };
                     let mut method = r.range(0, 2);
@@ -737,6 +755,21 @@ where
                 obs.fault(F_EOF);
                 return Ok(());
             }
+            O_EXTEND_SOURCE => {
+                // the source is refilled at the very moment it has handed out its last frame (no equilibrium
+                // frame has been pulled from it yet): exhaustion is not permanent
+                let k = op.a.clamp(1, 64) as u64;
+                let exactly_drained = matches!(len, Some(l) if pulls.get() == l);
+                if mul_hz || !exactly_drained || !s.extend_source(k) {
+                    src.skip_last();
+                    obs.skipped();
+                    continue;
+                }
+                obs.tick(op.k);
+                obs.fault(F_SOURCE_REFILLED);
+                len = len.map(|l| l + k);
+                m.len = len;
+            }
             O_CLONE_SWAP => {
                 // the model does not move: the clone must stand where the original stood
                 if !s.clone_swap() {
@@ -811,6 +844,7 @@ impl Scenario for ConverterScenario {
             "mul_hz control stream ended",
             "ratio changed before the first output",
             "converter replaced by its clone mid-stream (cloneable interpolator wrapper)",
+            "finite source refilled through source_mut() right after its last frame was consumed",
         ]
     }
     fn probes(&self) -> &'static [&'static str] {
